@@ -215,6 +215,8 @@ theorem ba2intS_intBits (n : Nat) (v : Int) (hn : 0 < n) (h : FitsInt n v) :
 /-- capacity invariant of C07 -/
 def Inv (b : Builder R) : Prop := b.bits.length ≤ 1023 ∧ b.refs.length ≤ 4
 
+theorem inv_empty : Inv (Builder.empty : Builder R) := by simp [Inv, Builder.empty]
+
 /-- an operation never leaves the capacity bounds, whether or not it returns normally -/
 def Safe (f : BOp R) : Prop := ∀ b, Inv b → Inv (f b).1
 
